@@ -6,7 +6,24 @@ NOT_YET = {}
 RX_NOTE = ("Trusted: Lean kernel; the hand-written model Zlink/Model/Rx.lean is tied to read_connection.rs by the correspondence scenario `rx` "
            "(same event lists run on the real Connection with a scripted transport and on the model; outputs must be token-identical) and by the extracted "
            "constants; frame decoding (serde_json/serde) is an opaque per-frame function in the model; ReadHalf::read is assumed cancel-safe as its contract says.")
+TX_NOTE = ("Trusted: Lean kernel; Zlink/Model/Tx.lean is tied to write_connection.rs by the correspondence scenarios `tx`/`tx-bounds` (operation histories run on the real "
+           "Connection with a capturing transport and on the model: per-operation results and write boundaries must be identical) and by the extracted constants "
+           "BUFFER_SIZE / MAX_BUFFER_SIZE; the serializer's output per message is an input here (C03 covers it).")
 TEXT = {
+    "C02": {
+        "level": "Machine-checked refinement theorem (every history, every message size, every growth step, every limit that is a multiple of it): the buffer-level send path "
+                 "behaves exactly like an abstract queue of accepted frames - one write per non-empty flush holding bytes++[0] of each accepted message in order, nothing for an empty "
+                 "flush, nothing for a refused message; corollary: written stream ++ still-queued bytes = framing of the accepted messages. Tied to the code by ~3k/40k differential histories.",
+        "design_ref": "DESIGN.md §5 C02, §4.2", "note": TX_NOTE,
+        "technique": "Lean 4 proof (data refinement to an abstract queue, loop invariant on capacity) on a hand-written model; model-vs-implementation correspondence run",
+    },
+    "C17": {
+        "level": "Machine-checked theorems parametric in growth step and limit: buffer capacity never exceeds the limit (inbound: every event sequence; outbound: every operation); a lone frame is "
+                 "delivered iff its wire size is below the limit, for every growth step and read-size schedule, otherwise overflow with exactly `max` bytes buffered; an outbound message is accepted iff "
+                 "queued+len+1 <= limit, else refused with nothing queued or written. Boundary sweeps of the real code run at the hook-lowered limit against model and closed form.",
+        "design_ref": "DESIGN.md §5 C17", "note": RX_NOTE + " " + TX_NOTE,
+        "technique": "Lean 4 proof (capacity invariant, closed-form thresholds) on hand-written models with extracted constants; boundary-sweep correspondence run under the cfg hook",
+    },
     "C01": {
         "level": "Machine-checked theorems (unbounded: every frame list, every read-size schedule, every arrival interleaving, every decode function) "
                  "about the receive-path model: one result per frame, in order, a function of that frame's bytes only, then end-of-stream; "
